@@ -76,6 +76,9 @@ func resolveStatic(info *types.Info, e ast.Expr) ast.Expr {
 		if lit := localStructLit(info, t); lit != nil {
 			return lit
 		}
+		if lit := pkgStructLit(info, t); lit != nil {
+			return lit
+		}
 	case *ast.StarExpr:
 		return resolveStatic(info, t.X)
 	case *ast.SelectorExpr:
@@ -155,6 +158,75 @@ func localStructLit(info *types.Info, id *ast.Ident) *ast.CompositeLit {
 	return st[v]
 }
 
+var pkgStructLitCache = map[*types.Var]*ast.CompositeLit{}
+
+// pkgStructLit: id names an unexported package-level struct variable of the analysed package that is initialised by a
+// composite literal and never modified anywhere in the package (no assignment to it or to a field, no address taken, no
+// pointer-receiver method called on it); returns the literal. Such a variable is a named constant row
+// (`var fgSequences = colorSequences{fgReset, fgSet, ...}`).
+func pkgStructLit(info *types.Info, id *ast.Ident) *ast.CompositeLit {
+	v, ok := info.ObjectOf(id).(*types.Var)
+	if !ok || v.IsField() || v.Pkg() == nil || v.Parent() != v.Pkg().Scope() || v.Exported() {
+		return nil
+	}
+	if _, isStruct := v.Type().Underlying().(*types.Struct); !isStruct {
+		return nil
+	}
+	if cl, ok := pkgStructLitCache[v]; ok {
+		return cl
+	}
+	pkgStructLitCache[v] = nil
+	pk := pkgOfInfo(info)
+	if pk == nil || pk.Types != v.Pkg() {
+		return nil
+	}
+	var lit *ast.CompositeLit
+	for _, f := range pk.Syntax {
+		for _, d := range f.Decls {
+			gd, ok := d.(*ast.GenDecl)
+			if !ok || gd.Tok != token.VAR {
+				continue
+			}
+			for _, sp := range gd.Specs {
+				vs := sp.(*ast.ValueSpec)
+				for i, nm := range vs.Names {
+					if info.Defs[nm] == types.Object(v) && len(vs.Values) == len(vs.Names) {
+						lit, _ = unparen(vs.Values[i]).(*ast.CompositeLit)
+					}
+				}
+			}
+		}
+	}
+	if lit == nil || c01PkgVarWritten(pk, v) {
+		return nil
+	}
+	// a pointer-receiver method called on the variable (or on a struct-valued field path of it) may modify it
+	mutated := false
+	for _, f := range pk.Syntax {
+		ast.Inspect(f, func(n ast.Node) bool {
+			sel, ok := n.(*ast.SelectorExpr)
+			if !ok || mutated {
+				return !mutated
+			}
+			s := info.Selections[sel]
+			if s == nil || s.Kind() != types.MethodVal || rootObj(info, sel.X) != types.Object(v) {
+				return true
+			}
+			if sig, _ := s.Obj().Type().(*types.Signature); sig != nil && sig.Recv() != nil {
+				if _, ptrRecv := sig.Recv().Type().(*types.Pointer); ptrRecv {
+					mutated = true
+				}
+			}
+			return true
+		})
+	}
+	if mutated {
+		return nil
+	}
+	pkgStructLitCache[v] = lit
+	return lit
+}
+
 var structLitCache = map[*ast.FuncDecl]map[*types.Var]*ast.CompositeLit{}
 
 func structLitsOf(info *types.Info, fd *ast.FuncDecl) map[*types.Var]*ast.CompositeLit {
@@ -221,6 +293,13 @@ func structLitsOf(info *types.Info, fd *ast.FuncDecl) map[*types.Var]*ast.Compos
 		case *ast.CompositeLit:
 			if _, isStruct := v.Type().Underlying().(*types.Struct); isStruct {
 				lits[v] = d
+			}
+		case *ast.Ident:
+			// v := G, G a read-only package-level struct defined by a literal: a copy of it
+			if _, isStruct := v.Type().Underlying().(*types.Struct); isStruct {
+				if cl := pkgStructLit(info, d); cl != nil {
+					lits[v] = cl
+				}
 			}
 		case *ast.IndexExpr:
 			// v := T[3], T a literal table: a copy of row 3
